@@ -92,15 +92,42 @@ theorem stage_preserves_visible (db : DB) (a : StageArgs) : vis (step db (.stage
 /-- **A failing call is the identity** on the whole database (visible state, staged batch, event log): every
 operation, in particular a staging call that fails midway (unknown order/account at any position, length
 mismatch, unsupported fee schedule, serializer panic). -/
-theorem fail_is_identity (db : DB) (op : Op) (e : Err) (h : (step db op).2 = some e) : (step db op).1 = db := by
+theorem fail_is_identity (db : DB) (op : Op) (e : Err) (hop : ∀ k w tx ht, op ≠ .accountSpend k w tx ht)
+    (h : (step db op).2 = some e) : (step db op).1 = db := by
   have hc : ∀ r : Except Err DB, (commit db r).2 = some e → (commit db r).1 = db := by
     intro r hr; cases r with
     | error _ => rfl
     | ok d => simp [commit] at hr
-  cases op <;> simp only [step] at h ⊢ <;> first | exact hc _ h | simp at h
+  cases op <;> simp only [step] at h ⊢ <;> first | exact hc _ h | simp at h | exact absurd rfl (hop _ _ _ _)
+
+/-- `HandleAccountSpend` is NOT one transaction (pending-batch clause, then `UpdateAccount`): when it fails, the
+database is either untouched or exactly in the state after the completed pending-batch clause -/
+theorem accountSpend_fail (db : DB) (k : Key) (w : Witness) (tx ht : Nat) (e : Err)
+    (h : (step db (.accountSpend k w tx ht)).2 = some e) :
+    (step db (.accountSpend k w tx ht)).1 = db ∨ (step db (.accountSpend k w tx ht)).1 = (step db .spend).1 := by
+  have hc : ∀ (d : DB) (r : Except Err DB), (commit d r).2 = some e → (commit d r).1 = d := by
+    intro d r hr; cases r with
+    | error _ => rfl
+    | ok d' => simp [commit] at hr
+  simp only [step, handleAccountSpend] at h ⊢
+  cases hl : lookup k db.accounts with
+  | none => left; rfl
+  | some a =>
+    simp only [hl] at h ⊢
+    cases w with
+    | unknown => left; rfl
+    | expiry => left; exact hc _ _ h
+    | multiSig =>
+      simp only [] at h ⊢
+      cases hr : commit db (spendPendingClause db) with
+      | mk db1 res =>
+        rw [hr] at h
+        cases res with
+        | some e' => right; rfl
+        | none => right; simp only [] at h ⊢; exact hc _ _ h
 
 theorem stage_fail_is_identity (db : DB) (a : StageArgs) (e : Err) (h : (step db (.stage a)).2 = some e) :
-    (step db (.stage a)).1 = db := fail_is_identity db (.stage a) e h
+    (step db (.stage a)).1 = db := fail_is_identity db (.stage a) e (fun _ _ _ _ => by simp) h
 
 /-- what a successful staging call leaves in the database: visible state untouched, the staging area REPLACED by
 `stageOut` of the visible accounts/orders and the call's arguments, events appended -/
@@ -285,6 +312,32 @@ theorem events_append_only (db : DB) (op : Op) : ∃ es, (step db op).1.events =
     simp only [step]; rw [reconnect_db]
     repeat' split
     all_goals exact hid
+  | accountSpend k w tx ht =>
+    have hu : ∀ d : DB, (commit d (updateAccountTx k (closeMods tx ht) d)).1.events = d.events := by
+      intro d
+      simp only [updateAccountTx]
+      cases updateAccountCore d.accounts k (closeMods tx ht) with
+      | error e => rfl
+      | ok a => simp only []; cases storeA a <;> rfl
+    have hs : (commit db (spendPendingClause db)).1.events = db.events := by
+      cases hm : spendPendingClause db with
+      | error e => rfl
+      | ok d => simp [commit, spendPendingClause_events hm]
+    simp only [step, handleAccountSpend]
+    cases lookup k db.accounts with
+    | none => exact hid
+    | some a =>
+      cases w with
+      | unknown => exact hid
+      | expiry => exact ⟨[], by simp [hu db]⟩
+      | multiSig =>
+        simp only []
+        cases hr : commit db (spendPendingClause db) with
+        | mk db1 res =>
+          rw [hr] at hs
+          cases res with
+          | some e => exact ⟨[], by simpa using hs⟩
+          | none => exact ⟨[], by simp only []; rw [hu db1]; simpa using hs⟩
 
 /-- … and over a whole history the log of every earlier moment is a prefix of the log of every later one -/
 theorem events_prefix_histories (db : DB) (ops : List Op) : ∃ es, (run db ops).events = db.events ++ es := by
